@@ -862,7 +862,8 @@ class Processor:
                                 else None)
                 is_ymk_anchor = (
                     compare_node is not None
-                    and isinstance(compare_node, dict))
+                    and isinstance(compare_node, dict)
+                    and delete_nc.node is compare_node)
 
                 if (is_ymk_anchor
                     and isinstance(parent, CommentedMap)
